@@ -45,6 +45,10 @@ Pool ==
     [With(Base, "env", E(FALSE, ("A" :> "1"))) EXCEPT !.penv = ("a" :> "p1")], [With(Base, "env", E(FALSE, ("A" :> "1"))) EXCEPT !.penv = ("a" :> "p2")],
     \* a matrix whose leftover fields hold a key named like a real field (`setup`): the real field is what is signed
     With(Base, "matrix", "shadow_a"), With(Base, "matrix", "shadow_b"),
+    \* the repository URL is signed as written: no spelling of it is "the same" as another
+    With(Base, "repo", "https://example.com/r.git/"), With(Base, "repo", "https://example.com/r"), With(Base, "repo", "https://example.com/r/"),
+    \* the anonymous dimension next to a named one: both are signed
+    With(Base, "matrix", "anon_plus_a"), With(Base, "matrix", "anon_plus_b"), With(Base, "matrix", "anon_adj_a"), With(Base, "matrix", "anon_adj_b"),
     \* env::A as a signed field versus a step variable literally named env::A / :A
     With(Base, "env", E(FALSE, ("env::A" :> "1"))), With(Base, "env", E(FALSE, (":A" :> "1"))) }
 
